@@ -483,6 +483,46 @@ def _tie_case(npairs: int) -> Dict[str, Any]:
     return {"n_checks": n, "fails": fails, "nontrivial": True, "sample": {"tie_pairs": npairs}}
 
 
+def _incremental_case(seed: int) -> Dict[str, Any]:
+    """Ranks parsed one after the other into ONE Trace with a queue-length request in between (rank 1 launches through APIs rank 0 never
+    uses, so their names enter the symbol table after the first request): rank 1's series equals the one a Trace that parsed everything first gives."""
+    import contextlib
+    import io
+
+    from hv import gen, rt
+    from hta.analyzers.trace_counters import TraceCounters
+    from hta.common.trace import Trace
+
+    per_rank = gen.wide_narrow_set(seed, n_streams=2, steps=1, n_top=3, p_launch=0.9, p_memcpy=0.4, p_zero=0.0, min_launch_q=1)
+    fails: List[Dict[str, Any]] = []
+    n = 0
+    inp = {"seed": seed, "events": per_rank, "history": "parse_single_rank(0); queue length of rank 0; parse_single_rank(1); queue length of rank 1"}
+    with rt.trace_dir(per_rank) as d, contextlib.redirect_stdout(io.StringIO()):
+        try:
+            ref_t = Trace(trace_dir=d)
+            ref_t.parse_traces(use_multiprocessing=False)
+            ref = history.canon(TraceCounters.get_queue_length_time_series(ref_t, ranks=[1]).get(1))
+            t = Trace(trace_dir=d)
+            t.parse_single_rank(0)
+            TraceCounters.get_queue_length_time_series(t, ranks=[0])
+            t.parse_single_rank(1)
+            got = history.canon(rt.lib(fails, "get_queue_length_time_series(after incremental parse)", inp, TraceCounters.get_queue_length_time_series, t, ranks=[1]).get(1))
+        except rt.LibFailure:
+            return {"n_checks": 1, "fails": fails, "nontrivial": True}
+        n += 1
+        if got != ref:
+            fails.append({"what": "series_after_incremental_parse", "input": inp, "observed": repr(got)[:500], "expected": repr(ref)[:500]})
+    return {"n_checks": n, "fails": fails, "nontrivial": True, "sample": {"seed": seed}}
+
+
+def bounded_incremental(ctx):
+    from hv import rt
+
+    k = 6 if not ctx.thorough else 60
+    res = rt.pmap(_incremental_case, [ctx.seed * 47 + 700 + i for i in range(k)], ctx.procs)
+    return rt.summarise(res, f"{PROP}.incremental", f"{k} two-rank trace sets parsed rank by rank into one Trace with a queue-length request in between; rank 1's series vs. a Trace that parsed all ranks first")
+
+
 def bounded(ctx):
     from hv import rt
 
@@ -504,7 +544,7 @@ SPEC = Spec(
     prop=PROP, level="other",
     functions=[(TR, "Trace.convert_time_series_to_events"), (ST, "TraceSymbolTable.get_runtime_launch_events_query"), (TC, "TraceCounters._get_queue_length_time_series_for_rank"),
                (TC, "TraceCounters._get_memory_bw_time_series_for_rank"), (TA, "TraceAnalysis.generate_trace_with_counters")],
-    units=units, replay=replay_launch_query, bounded=[Bounded("series_vs_step_functions", bounded), Bounded("history_independence", history.stage(PROP, "queue", "gen")), Bounded("history_independence_membw", history.stage(PROP, "membw", "gen"))],
+    units=units, replay=replay_launch_query, bounded=[Bounded("series_vs_step_functions", bounded), Bounded("incremental_parse", bounded_incremental), Bounded("history_independence", history.stage(PROP, "queue", "gen")), Bounded("history_independence_membw", history.stage(PROP, "membw", "gen"))],
     trusted=["pandas contracts used by the row-local part (rename, column assignment, apply, to_dict('records'))", "float bandwidth sums treated as exact up to 1e-6"],
     explanation="Proved (z3 from the AST): counter events = series rows at ts + min_ts with {counter: value} / ph 'C' / pid / id / name; the launch query, over an arbitrary symbol "
                 "table, selects exactly the rows decoding to one of the eleven launch names with a positive link; the marker tables of both series (+1 at the launch call / -1 at the linked "
